@@ -40,6 +40,7 @@ theorem hasNeed_build (d : Desc) (hv : d.Valid) : HasNeed (build d).st (needOf d
   | resampleTV order steps => exact hasNeed_resampleTVS order steps hv
   | smix delta =>
     exact (hasNeed_smixS delta ()).congr (fun k => by simp [needOf, smixStart_eq])
+  | attack n => exact (hasNeed_attackS n _).congr (fun _ => rfl)
 
 theorem hasNeed_buildChain : ∀ (ds : List Desc), (∀ d ∈ ds, d.Valid) →
     HasNeed (buildChain ds).st (needOfChain ds)
